@@ -67,6 +67,11 @@ theorem CbInv.step {s : State} (h : CbInv s) (ht : TaskInv s) (st : Step) : CbIn
           exact h.of_eq rfl rfl rfl rfl
         · exact h.of_eq rfl rfl rfl rfl
       · exact h.of_eq rfl rfl rfl rfl
+  | executeF prio cb =>
+    simp only [Tbox.C05.step]
+    split
+    · exact h
+    · exact h.of_eq rfl rfl rfl rfl
   | cancel id =>
     simp only [Tbox.C05.step]
     split
